@@ -174,15 +174,17 @@ def run_prog(hp, prog, log):
             with hp.name_scope(st[1]): run_prog(hp, st[2], log)
         else:
             _, eager, parent, vs, body = st
+            entered = False
             try:
-                cm = hp.conditional_scope(parent, list(vs)); cm.__enter__()
+                # a real `with`: an exception raised in the body travels through the context manager, as in a build function
+                with hp.conditional_scope(parent, list(vs)):
+                    entered = True
+                    full = hp._get_name(parent)
+                    if eager or (full in hp.values and hp.values[full] in list(vs)): run_prog(hp, body, log)
             except ValueError:
-                log.append(("err", "ValueError")); raise
-            try:
-                full = hp._get_name(parent)
-                if eager or (full in hp.values and hp.values[full] in list(vs)): run_prog(hp, body, log)
-            finally:
-                cm.__exit__(None, None, None)
+                if not entered:
+                    log.append(("err", "ValueError"))
+                raise
 
 
 def cv(v, I):
@@ -252,6 +254,11 @@ def case_container(seed):
     except (ValueError, KeyError): raised2 = True
     e2 = "(%s, %s, %s, %s, %s, %s)" % (cspace(hp2, I), cvals(hp2, I), cscopes(hp2.active_scopes, I), cscopes(hp2.inactive_scopes, I), clog(log2, I), emit.b(raised2))
     term = "CContainer %s %s %s %s" % (cprog(prog, I), init2, e1, e2)
+    # whatever happened inside (also an exception), every scope that was entered has been left again
+    for which, h in (("first", hp), ("second", hp2)):
+        if h._conditions or h._name_scopes:
+            VIOL.append("after the %s pass (%s) the container is still inside scopes: conditions %r, name scopes %r" % (
+                which, "it raised" if (raised1 if which == "first" else raised2) else "no exception", [(c.name, c.values) for c in h._conditions], list(h._name_scopes)))
     # property (b) on the implementation: parents are registered before their conditional children
     msg = None
     for sp in (hp.space, hp2.space):
